@@ -37,7 +37,108 @@ def _hist_configs(rng, k):
         cfg["kind"] = kinds[i % len(kinds)]
         cfg["scaling"] = float(rng.uniform(0.2, 1.5))
         out.append(cfg)
+    # near-duplicates: an earlier calculation repeated with exactly ONE input changed (what an incompletely keyed cache,
+    # a memo on the scatterer/theory or stale Fortran state would confuse with the earlier call)
+    import copy
+    changes = ["medium_index", "illum_wavelen", "illum_polarization", "center", "index", "size", "spacing", "scaling"]
+    for j in range(k):
+        cfg = copy.deepcopy(out[j])
+        ch = changes[j % len(changes)]
+        o = cfg["optics"]
+        if ch == "medium_index":
+            o["medium_index"] = o["medium_index"] * 1.01
+        elif ch == "illum_wavelen":
+            o["illum_wavelen"] = o["illum_wavelen"] * 1.013
+        elif ch == "illum_polarization":
+            px, py = o["illum_polarization"]
+            o["illum_polarization"] = [float(-py), float(px)]
+        elif ch == "center":
+            def mv(d):
+                d = dict(d)
+                d["c"] = [d["c"][0] + 0.11, d["c"][1], d["c"][2] + 0.37]
+                return d
+            cfg["scat"] = scat._map_members(cfg["scat"], mv)
+        elif ch == "index":
+            def bump(d):
+                if "members" in d:
+                    bump(d["members"][-1])
+                elif isinstance(d.get("n"), list) and d["t"] == "layered":
+                    d["n"][-1] = _bump_n(d["n"][-1])
+                else:
+                    d["n"] = _bump_n(d["n"])
+            bump(cfg["scat"])
+        elif ch == "size":
+            def grow(d):
+                if "members" in d:
+                    grow(d["members"][0])
+                elif isinstance(d.get("r"), list):
+                    d["r"] = [v * 0.97 for v in d["r"]]
+                elif "r" in d:
+                    d["r"] = d["r"] * 0.97
+                elif "h" in d:
+                    d["h"] = d["h"] * 0.97
+            grow(cfg["scat"])
+        elif ch == "spacing":
+            d = cfg["det"]
+            if d["t"] == "grid":
+                d["spacing"] = [v * 1.07 for v in d["spacing"]] if isinstance(d["spacing"], list) else d["spacing"] * 1.07
+            else:
+                d["x"] = [v * 1.07 for v in d["x"]]
+        elif ch == "scaling":
+            cfg["scaling"] = cfg["scaling"] * 0.5
+        cfg["variant_of"] = [j, ch]
+        out.append(cfg)
+    # ... and with only a THEORY option or the particle orientation changed (a cache shared between theory objects
+    # that is keyed on the scatterer and optics alone would hand back the earlier call's intermediate results)
+    for j in range(k):
+        cfg = copy.deepcopy(out[j])
+        th = cfg["theory"]
+        what = None
+        if "lens_angle" in th:
+            th["lens_angle"] = th["lens_angle"] * (0.8 if j % 2 else 1.15) if th["lens_angle"] * 1.15 < 1.5 else th["lens_angle"] * 0.8
+            what = "lens_angle"
+        elif th["t"] == "Mie":
+            cur = scat.MIE_OPTS.index(th.get("kw", {})) if th.get("kw", {}) in scat.MIE_OPTS else 0
+            th["kw"] = scat.MIE_OPTS[(cur + 1 + j % 3) % 4]
+            what = "mie_options"
+        elif th["t"] == "Multisphere":
+            cur = scat.MS_OPTS.index(th.get("kw", {})) if th.get("kw", {}) in scat.MS_OPTS else 0
+            th["kw"] = scat.MS_OPTS[(cur + 1 + j % 3) % 4]
+            what = "multisphere_options"
+        elif "rot" in cfg["scat"]:
+            cfg["scat"]["rot"] = [cfg["scat"]["rot"][0], cfg["scat"]["rot"][1] + 0.21, cfg["scat"]["rot"][2] + 0.4]
+            what = "rotation"
+        if what is None:
+            continue
+        cfg["variant_of"] = [j, what]
+        out.append(cfg)
+    # ... and with only the ABSORPTION of the particle changed (imaginary part of the index; real part, size, shape kept)
+    for j in range(k):
+        cfg = copy.deepcopy(out[j])
+
+        def absorb(d):
+            if "members" in d:
+                absorb(d["members"][0])
+            elif d["t"] == "layered":
+                d["n"][0] = _add_im(d["n"][0])
+            else:
+                d["n"] = _add_im(d["n"])
+        absorb(cfg["scat"])
+        cfg["variant_of"] = [j, "absorption"]
+        out.append(cfg)
     return out
+
+
+def _add_im(n):
+    if isinstance(n, list):
+        return [n[0], n[1] + 0.05]
+    return [n, 0.05]
+
+
+def _bump_n(n):
+    if isinstance(n, list):
+        return [n[0] * 1.004, n[1]]
+    return n * 1.004
 
 
 def _hostile(rng):
@@ -70,6 +171,11 @@ def cases(tier, seed):
         if i % 9 == 4 and cfg["det"]["t"] == "grid" and min(cfg["det"]["shape"]) >= 3:
             nx, ny = cfg["det"]["shape"]
             cfg["det"]["crop"] = [[1, nx], [0, ny - 1]]
+        if i % 9 in (2, 7) and not kind.startswith(("lens", "mielens", "aberrated")):
+            # point detector given in spherical coordinates (finite r): the result must carry r, theta, phi as well
+            npt = int(rng.integers(1, 9))
+            cfg["det"] = {"t": "sph", "r": [float(v) for v in rng.uniform(15, 40, npt)], "theta": [float(v) for v in rng.uniform(0.0, 1.0, npt)],
+                          "phi": [float(v) for v in rng.uniform(0, 2 * math.pi, npt)]}
         sc = [0.0, 1.0, float(rng.uniform(0.1, 2.0)), float(rng.uniform(0.1, 2.0))][i % 4]
         cost = 6 if kind.startswith(("lens", "tmatrix", "multi")) else 1
         out.append({"id": "id-%d" % i, "kind": "identity", "cfg": cfg, "ckind": kind, "scaling": sc,
@@ -87,10 +193,10 @@ def cases(tier, seed):
                     "seed": [seed, "idmc", i]})
     # histories
     ngroups = 1 if tier == "quick" else 6
-    K = 12
     for g in range(ngroups):
         grng = rng_for(seed, "c01hist", g)
-        cfgs = _hist_configs(grng, K)
+        cfgs = _hist_configs(grng, 12)
+        K = len(cfgs)
         host = _hostile(grng)
         nperm = 3 if tier == "quick" else 16
         orders = [("canon", list(range(K)))]
